@@ -11,6 +11,7 @@
 From Coq Require Import NArith ZArith List Bool.
 From Verif Require Import Model.Types Model.Admission Proofs.AdmissionProofs.
 From Verif Require Model.Retriever.
+From Verif Require Model.GoLite gen.GoLiteFuns Check.GoLiteAdmit Proofs.GoLiteAdmitRefine.
 Import ListNotations.
 
 (* ---- DA path ------------------------------------------------------------------------------------ *)
@@ -216,3 +217,29 @@ Proof. vm_compute. reflexivity. Qed.
 Example before_the_repair_forgery_halted :
   node_final W.gen W.now W.tb W.s0 (IDA (BHdr W.fsh1) :: W.genuine) = node_final W.gen W.now W.tb W.s0 W.genuine.
 Proof. vm_compute. reflexivity. Qed.
+
+(* ---- OVER TRANSLATED CODE -------------------------------------------------------------------------------------
+   The two functions through which everything a syncing node reads from the DA layer passes —
+   handlePotentialHeader and handlePotentialData of block/retriever.go — translated from /repo's source on every run
+   (coq/gen/GoLiteFuns.v) and evaluated by Model/GoLite.v: whatever the blob (any class: junk, undecodable, any
+   header, any signed data), whatever the seen-sets and the DA height, if the function does ANYTHING — a DA-included
+   mark in a cache, a wake-up of the DA includer, an event handed to the sync loop — the blob is a header / signed data
+   signed with the genesis proposer's private key.  (Blob decoding by class is assumed: C12's subject.) *)
+Theorem C03_translated_header_path_full : forall pk g, g_proposer g = Addr pk ->
+  forall hs ds b da vals effs,
+  b <> BEmpty ->
+  GoLite.run_eff GoLiteFuns.gen_funs [] "Manager.handlePotentialHeader"%string
+                 (Some (GoLite.VMgr (GoLiteAdmit.mk_mgr g hs ds))) [GoLite.VUnit; GoLite.VBlob b; GoLite.VN da] = Some (vals, effs) ->
+  effs <> [] ->
+  exists sh, b = BHdr sh /\ signed_by pk sh = true.
+Proof. exact GoLiteAdmitRefine.translated_header_path_only_proposer. Qed.
+Print Assumptions C03_translated_header_path_full.
+
+Theorem C03_translated_data_path_full : forall pk g, g_proposer g = Addr pk ->
+  forall hs ds b da vals effs,
+  GoLite.run_eff GoLiteFuns.gen_funs [] "Manager.handlePotentialData"%string
+                 (Some (GoLite.VMgr (GoLiteAdmit.mk_mgr g hs ds))) [GoLite.VUnit; GoLite.VBlob b; GoLite.VN da] = Some (vals, effs) ->
+  effs <> [] ->
+  exists sd, b = BData sd /\ data_signed_by pk sd = true.
+Proof. exact GoLiteAdmitRefine.translated_data_path_only_proposer. Qed.
+Print Assumptions C03_translated_data_path_full.
